@@ -461,6 +461,10 @@ func (p *gRepeat0) Match(src []*types.Token, ctx *Context) (n int, result any, e
 		rets = append(rets, ret1)
 		n += n1
 		src = src[n1:]
+		if n1 == 0 { // nothing consumed: matching again would never end
+			result = rets
+			return
+		}
 	}
 }
 
@@ -503,6 +507,10 @@ func (p *gRepeat1) Match(src []*types.Token, ctx *Context) (n int, result any, e
 		}
 		rets = append(rets, ret1)
 		n += n1
+		if n1 == 0 { // nothing consumed: matching again would never end
+			result = rets
+			return
+		}
 	}
 }
 
